@@ -591,6 +591,33 @@ class Interp:
                 return Struct(cls, ("ref", self.num(kw["ref_id"])))
             d = args[0] if args else kw.get("device_id")
             return Struct(cls, self.devkey(d))
+        if name in ("Device", "_Device"):
+            if "ref_id" in kw:
+                return Struct(None, ("ref", self.num(kw["ref_id"])))
+            d = args[0] if args else kw.get("device_id")
+            if d is None:
+                raise Unsupported("Device() without id")
+            return Struct(None, self.devkey(d))
+        if name in ("Devices", "_Devices"):
+            h = args[0] if args else kw.get("prefabHash")
+            nm = args[1] if len(args) > 1 else kw.get("name")
+            if isinstance(nm, str):
+                nm = crc(nm)
+            return Batch(None, self.num(h), None if nm is None else self.num(nm))
+        if name in ("sdse", "sdns"):
+            isset = self.read("devset", self.devkey(args[0])) != 0
+            return alu.b2f(isset if name == "sdse" else not isset)
+        if name == "clr":
+            k = self.devkey(args[0])
+            if k == ("pin", "db"):
+                self.stack = [0.0] * 512
+            else:
+                self.effect("clr", k)
+            return 0.0
+        if name == "hcf":
+            self.effect("hcf")
+            self.halted = "hcf"
+            raise Stop()
         if name == "Stack":
             if "ref_id" in kw:
                 return StackRef(("ref", self.num(kw["ref_id"])))
